@@ -347,6 +347,20 @@ func RepopulatePhysicalExpressionFunctions(expr physical.Expression) (physical.E
 						continue descriptorLoop
 					}
 				}
+				if descriptor.TypeFn != nil {
+					// Overloads with a TypeFn carry no ArgumentTypes / OutputType: tell them apart
+					// the way the typechecker does, by the types of the actual arguments.
+					argTypes := make([]octosql.Type, len(expr.FunctionCall.Arguments))
+					for j := range expr.FunctionCall.Arguments {
+						argTypes[j] = expr.FunctionCall.Arguments[j].Type
+						if descriptor.Strict {
+							argTypes[j] = octosql.NonNullable(argTypes[j])
+						}
+					}
+					if _, ok := descriptor.TypeFn(argTypes); !ok {
+						continue descriptorLoop
+					}
+				}
 				expr.FunctionCall.FunctionDescriptor.TypeFn = descriptor.TypeFn
 				expr.FunctionCall.FunctionDescriptor.Function = descriptor.Function
 				return expr
